@@ -28,8 +28,8 @@ def one(b, rnd, stack, pkt, pd, rules, d, strat, klass, cm=None):
     out = obs_bits(res_)
     from schc_run import bytes_cm_compress
     bytes_cm_compress(b, klass, stack, pkt, d, strat == MatchStrategy.FIRST, rules, res_)
-    # rules of fragmentation nature share the id space; the compressor must never select them: model and reference do not see them
-    nrs = [n_rule(r) for r in rules if r.nature is not RuleNature.FRAGMENTATION]
+    # rules of fragmentation nature share the id space; the compressor must never select them (model: never yielded; reference: never applying)
+    nrs = [n_rule(r) for r in rules]
     npd = dict(n_pdesc(pd), dir=DIRC[d])
     cands = [nr for nr in nrs if ref_rule_applies(npd, nr)]
     outs = [ref_compress(npd, nr, DIRC[d]) for nr in cands]
